@@ -41,7 +41,7 @@ REQUIRED = ['C08.pool_map_schedule_indep', 'C08.ensemble_mean', 'C08.flip_member
             # the amplitude of the signal at every amplitude, no absolute threshold; ensemble(c.x) = c.ensemble(x)
             'C08.noise_scale_linear', 'C08.ensemble_member_adds_member_noise', 'C08.ensemble_member_noise_scales',
             'C08.ensemble_noise_never_negligible', 'C08.ensemble_scale_law', 'C08.ensemble_members_scale',
-            'C08.ceemd_scale_law']
+            'C08.ceemd_scale_law', 'C08.ensemble_scale_law_classic_sift']
 TRUSTED = [
     'oracle: the classic sift S = the real public emd.sift.sift, tabulated on the signals that were actually sifted in the same run '
     '(lookup by argument within 1e-9)',
